@@ -57,6 +57,8 @@ func sharedSpec(version int) *rstep.ASpec {
 		// patterns of every kind live in the shared spec: arrays (a variable next to constants), property
 		// variables, optional and inequality variables - the matcher gets the spec's own pattern objects
 		"start": {Type: "message", Branches: []rstep.ABranch{
+			{Pattern: M{"go": "?g", "pollute": true}, Target: "pollute"},
+			{Pattern: M{"go": "?g", "probe": true}, Target: "probe"},
 			{Pattern: M{"go": "?g", "tags": []interface{}{"?t", "x", "y"}}, Target: "a"},
 			{Pattern: M{"go": "?g", "opt": M{"?k": "??o"}}, Target: "a"},
 			{Pattern: M{"go": "?g"}, Target: "a"}}},
@@ -66,6 +68,12 @@ func sharedSpec(version int) *rstep.ASpec {
 				{Pattern: M{"short": true}, Guard: actlang.P(false, Op{K: actlang.Set, A: "s", V: v}), Target: "done"},
 				{Target: "b"}}},
 		"done": {NoBranches: true},
+		// one machine's script leaves things behind in its environment and completes; another machine's script looks
+		// for them: it must find the environment of a first execution, whatever ran before it against this spec
+		"pollute": {Action: actlang.P(false, tick, Op{K: actlang.Raw, A: `Array.prototype.extra = function() { return 1; }; Object.prototype.tainted = 1; globalThis.leak = 1; Math.floor = function() { return 0; };`}, tick),
+			Branches: []rstep.ABranch{{Target: "start"}}},
+		"probe": {Action: actlang.P(false, tick, Op{K: actlang.Raw, A: `var n = 0; for (var k in [1, 2, 3]) { n++; } bs.clean = (n == 3) && (({}).tainted === undefined) && (typeof leak === "undefined") && (Math.floor(1.5) == 1);`}, tick),
+			Branches: []rstep.ABranch{{Target: "start"}}},
 		"b": {Action: actlang.P(false, tick, Op{K: actlang.Raw, A: "bs.n = (bs.n || 0) + 1; _.out({at: 'b', id: bs.id, n: bs.n, v: " + fmt.Sprint(version) + "});"}, tick),
 			Branches: []rstep.ABranch{
 				{Pattern: M{"fail": "js"}, Target: "jfail"},
@@ -258,6 +266,8 @@ func c12Scenarios(thorough bool) []c12Scenario {
 		{Name: "w6", Bs: M{"id": 6.0, "reject": true}, Msgs: []interface{}{M{"go": 1.0}}},
 		{Name: "w7", Bs: M{"id": 7.0, "short": true}, Msgs: []interface{}{M{"go": 1.0}}, CancelAt: 1},
 		{Name: "w8", Bs: M{"id": 8.0, "short": true}, Msgs: []interface{}{M{"go": 1.0}}},
+		{Name: "w9", Bs: M{"id": 9.0}, Msgs: []interface{}{M{"go": 1.0, "pollute": true}}},
+		{Name: "w10", Bs: M{"id": 10.0}, Msgs: []interface{}{M{"go": 1.0, "probe": true}, M{"go": 2.0, "probe": true}}},
 	}
 	var out []c12Scenario
 	for i := 0; i < len(ws); i++ {
@@ -266,6 +276,7 @@ func c12Scenarios(thorough bool) []c12Scenario {
 		}
 	}
 	out = append(out, c12Scenario{Kind: "shared", Walkers: []walker{ws[0], ws[2], ws[4]}})
+	out = append(out, c12Scenario{Kind: "shared", Walkers: []walker{ws[8], ws[9], ws[0]}})
 	out = append(out, c12Scenario{Kind: "shared", Walkers: []walker{ws[1], ws[3], ws[5]}})
 	out = append(out, c12Scenario{Kind: "shared", Walkers: []walker{ws[6], ws[1], ws[7]}})
 	if thorough {
@@ -339,6 +350,10 @@ func sharedCheck(c *vh.Ctx, prop string) {
 			got, done := r.results[wi], r.done[wi]
 			if !done {
 				out = append(out, [2]string{"walk-did-not-finish", w.Name})
+				continue
+			}
+			if strings.Contains(got, `"clean":false`) {
+				out = append(out, [2]string{"script-environment-not-fresh/" + w.Name, fmt.Sprintf("walker %s: a script found traces of an earlier execution in its environment: %s", w.Name, got)})
 				continue
 			}
 			matched := -1
